@@ -209,6 +209,16 @@ def check_seq(seq, pandas=False, meta=True, forms=False):
         two[:, 1] = arr
         variants = {"strided": buf[1 : 1 + 2 * n : 2], "reversed-view": arr[::-1].copy()[::-1], "2d-column": two[:, 1], "list": [float(x) for x in arr],
                     "fortran-col": np.asfortranarray(np.column_stack((arr, arr + 1.0)))[:, 0]}
+        try:
+            import pandas as pd
+
+            # array-likes with their own labels: positions count, not labels
+            variants["series"] = pd.Series(arr)
+            variants["series-reversed-index"] = pd.Series(arr, index=np.arange(n)[::-1])
+            variants["series-offset-index"] = pd.Series(arr, index=np.arange(n) + 5)
+            variants["series-tail-slice"] = pd.Series(np.concatenate(([9.0, -9.0], arr)))[2:]
+        except ImportError:
+            pass
         if float(arr.max()).is_integer() and float(arr.min()).is_integer():
             variants["int64"] = arr.astype(np.int64)
             variants["int32-strided"] = np.repeat(arr.astype(np.int32), 2)[::2]
@@ -233,6 +243,9 @@ def check_seq(seq, pandas=False, meta=True, forms=False):
                 ("neg", lambda x: -x, lambda t: t * np.array([1.0, -1.0, 1.0])),
                 ("shift", lambda x: x + 3.0, lambda t: t + np.array([0.0, 3.0, 0.0])),
                 ("scale", lambda x: x * 0.25, lambda t: t * np.array([0.25, 0.25, 1.0])),
+                # exact power-of-two scalings to the far ends of the double range (squares of ranges under/overflow there)
+                ("scale-tiny", lambda x: x * 2.0 ** -700, lambda t: t * np.array([2.0 ** -700, 2.0 ** -700, 1.0])),
+                ("scale-huge", lambda x: x * 2.0 ** 520, lambda t: t * np.array([2.0 ** 520, 2.0 ** 520, 1.0])),
             ):
                 if tname == "shift" and not float(arr.max()).is_integer():
                     continue  # shift is exact only on the integer alphabet
